@@ -7,6 +7,102 @@ import json, os
 FILES = ["Base/Prelude.v", "Base/Dec.v", "Model/NetPropsLib.v", "Model/Identity.v", "Model/C16Check.v", "Proofs/Identity.v", "Proofs/IdentityOwner.v"]
 
 
+# ---------------------------------------------------------------- pinned source (LESSONS.md 2 and 6)
+# The model was written for one shape of these functions; any edit to them (or a new function in
+# identity_registrar.go, or a new call site outside it that writes the identity stores) is a broken
+# obligation until the change has been reviewed against the model and the pins renewed with
+#   python3 -c "import sys; sys.path[:0]=['/verif','/verif/lib']; import checks.c16 as c; c.repin()"
+PINFILE = os.path.join(os.path.dirname(os.path.abspath(__file__)), "c16_pins.json")
+PINNED = {
+    "x/gov/keeper/identity_registrar.go": None,      # None = every function of the file
+    "x/gov/keeper/keeper.go": ["Keeper.EnsureUniqueKeys", "Keeper.EnsureOldUniqueKeysNotRemoved"],
+    "x/gov/keeper/msg_server.go": ["msgServer.RegisterIdentityRecords", "msgServer.DeleteIdentityRecords", "msgServer.RequestIdentityRecordsVerify",
+                                   "msgServer.HandleIdentityRecordsVerifyRequest", "msgServer.CancelIdentityRecordsVerifyRequest",
+                                   "msgServer.ClaimCouncilor", "msgServer.SetNetworkProperties"],
+    "x/gov/proposal_handler.go": ["ApplySetNetworkPropertyProposalHandler.Apply"],
+    "x/gov/types/msg.go": ["MsgRegisterIdentityRecords.ValidateBasic", "MsgDeleteIdentityRecords.ValidateBasic", "MsgRequestIdentityRecordsVerify.ValidateBasic",
+                           "MsgHandleIdentityRecordsVerifyRequest.ValidateBasic", "MsgCancelIdentityRecordsVerifyRequest.ValidateBasic"],
+    "x/staking/keeper/msg_server.go": ["msgServer.ClaimValidator"],
+    "x/recovery/keeper/msg_server.go": ["msgServer.RotateRecoveryAddress", "msgServer.RotateValidatorByHalfRRTokenHolder"],
+}
+WRITERS = r"\b(SetIdentityRecord|DeleteIdentityRecordById|SetIdentityRecordsVerifyRequest|DeleteIdRecordsVerifyRequest|RegisterIdentityRecords|DeleteIdentityRecords|SetLastIdentityRecordId|SetLastIdRecordVerifyRequestId|RequestIdentityRecordsVerify|HandleIdentityRecordsVerifyRequest|CancelIdentityRecordsVerifyRequest)\("
+
+
+def go_funcs(text):
+    """name (receiver-qualified) -> normalised source text of every top-level func"""
+    import re
+    res = {}
+    for m in re.finditer(r"^func\s*(\(([^)]*)\))?\s*([A-Za-z_0-9]+)\s*\(", text, re.M):
+        recv = ""
+        if m.group(2):
+            recv = m.group(2).split()[-1].lstrip("*") + "."
+        i = text.index("{", m.end())
+        # skip to the body: the first '{' at parenthesis depth 0 after the signature
+        depth, j = 0, m.end() - 1
+        while True:
+            c = text[j]
+            if c == "(":
+                depth += 1
+            elif c == ")":
+                depth -= 1
+            elif c == "{" and depth == 0:
+                break
+            j += 1
+        k, d = j, 0
+        while True:
+            c = text[k]
+            if c == "{":
+                d += 1
+            elif c == "}":
+                d -= 1
+                if d == 0:
+                    break
+            k += 1
+        res[recv + m.group(3)] = " ".join(text[m.start():k + 1].split())
+    return res
+
+
+def compute_pins(repo):
+    import hashlib, re, subprocess
+    pins = {}
+    for f, names in PINNED.items():
+        funcs = go_funcs(open(os.path.join(repo, f), errors="replace").read())
+        for n in (sorted(funcs) if names is None else names):
+            pins["%s:%s" % (f, n)] = hashlib.sha256(funcs.get(n, "<missing>").encode()).hexdigest()[:16]
+    sites = {}
+    for root, _, files in os.walk(os.path.join(repo, "x")):
+        for fn in files:
+            if not fn.endswith(".go") or fn.endswith("_test.go") or fn.endswith(".pb.go") or fn.endswith(".pb.gw.go"):
+                continue
+            path = os.path.join(root, fn)
+            rel = os.path.relpath(path, repo)
+            if rel == "x/gov/keeper/identity_registrar.go" or "/client/" in rel or rel.endswith("expected_keepers.go"):
+                continue
+            for m in re.finditer(WRITERS, open(path, errors="replace").read()):
+                key = "%s:%s" % (rel, m.group(1))
+                sites[key] = sites.get(key, 0) + 1
+    for k, v in sites.items():
+        pins["callsite:" + k] = str(v)
+    return pins
+
+
+def repin(repo="/repo"):
+    json.dump(compute_pins(repo), open(PINFILE, "w"), indent=1, sort_keys=True)
+    print("pinned", PINFILE)
+
+
+def check_pins(R):
+    import vlib
+    try:
+        want = json.load(open(PINFILE))
+    except Exception as e:
+        return R.oblige("pinned source of the modelled functions and of the external writers of the identity stores", False, "cannot read %s: %s" % (PINFILE, e))
+    have = compute_pins(vlib.REPO)
+    diff = sorted(k for k in set(want) | set(have) if want.get(k) != have.get(k))
+    return R.oblige("pinned source: %d modelled functions / call sites unchanged since the model was reviewed" % len(want), not diff,
+                    "changed, new or missing: " + ", ".join(diff[:12]))
+
+
 def observe(R, n, seed=None, ops=None):
     env = {"VERIF_SEED": str(seed)} if seed is not None else None
     args = ["-n", n] + (["-ops", ops] if ops else [])
@@ -34,12 +130,15 @@ def run(R):
                   "transaction atomicity (an error or panic discards the message's writes) is reproduced by the harness with one cached store per message, as baseapp does",
                   "request indexes by requester / approver are modelled as derived from the request store (kept consistent by SetIdentityRecordsVerifyRequest / DeleteIdRecordsVerifyRequest); iteration while deleting in the cachekv store is exercised by the differential run, not modelled",
                   "two model flags are PROBED on the tree under test by the harness and passed to the model: del_fix (DeleteIdentityRecordById removes the address+key index entry) and msg_guard (MsgSetNetworkProperties applies the EnsureUniqueKeys guards); the theorems are stated per flag value",
+                  "the modelled Go functions and the call sites outside identity_registrar.go that write the identity stores are pinned by fingerprint (checks/c16_pins.json); an edit is a broken obligation until reviewed",
+                  "genesis export/import of the gov module in the middle of a history is modelled as the identity on the registry (justified by invariant W: the index is determined by the records) and checked by the differential run and by clause 'genesis'",
                   "no axioms: every theorem of Properties/C16.v is closed under the global context"]
     R.assume += ["addresses are abstract integers (bech32 is a bijection); record and request ids stay far below 2^64",
                  "parties hold only the denominations ukex and utip; the rotation fee payer is a separate account",
                  "ClaimValidator only creates a pending validator, so no party is an active validator (GetValidatorByMoniker never finds one)",
                  "ASCII keys and values (strings.ToLower / len modelled on ASCII)",
                  "history-level 'only owners edit' / 'edit cancels requests' theorems assume rotations go to addresses that hold no identity records (rot_guarded); the code checks that the target has no account, and an address without account cannot have signed a registration"]
+    check_pins(R)
     R.coq_files(FILES)
     R.coq_property()
     R.audit()
